@@ -45,7 +45,8 @@ FAULT_KINDS = ["LenaStopFill-from-probe", "LenaStopFill-from-Slice", "LenaStopFi
 EXPECTED_PROBES = ["stop-in-last-slot-of-block", "two-branches-stop-in-same-block",
                    "source-branch-after-first-block", "empty-flow-all-kinds", "common-type-fill-compute",
                    "common-type-fill-request", "common-type-call", "zip", "empty-split",
-                   "fr-tuple-bufsize-none", "multi-block"]
+                   "fr-tuple-bufsize-none", "multi-block", "same-split-run-twice",
+                   "accumulator-inside-explicit-sequence"]
 
 
 class Spec(object):
@@ -100,6 +101,11 @@ def gen_branch(tape, name, kinds, allow_stop=True):
             else:
                 b.stages.append(("map",))
         b.form = tape.choice(["tuple", "explicit", "single"], "form")
+        if tape.chance(1, 4, "fc-inside-sequence"):
+            # an accumulator used as a run element of an explicit Sequence: filled with
+            # every block, computed after every block
+            b.stages.insert(tape.draw(len(b.stages) + 1, "fc-pos"), ("fc", 1 + tape.draw(2, "fc-results")))
+            b.form = "explicit"
     return b
 
 
@@ -120,6 +126,9 @@ def gen_scenario(tape):
         sc.branches = [gen_branch(tape, "b%d" % i, [(1, kind)], allow_stop=False)
                        for i in range(nb)]
     sc.bufsize = tape.choice([1000, None, 1, 2, 3, sc.n + 1], "bufsize")
+    sc.second_run = None
+    if sc.mode == "run" and tape.chance(1, 4, "second-run"):
+        sc.second_run = tape.draw(9, "flowlen2")
     return sc
 
 
@@ -172,6 +181,8 @@ def real_branch(b, log):
             els.append(ProbeCall(log, nm))
         elif st[0] == "filter":
             els.append(lena.flow.Filter(Pred(log, nm, st[1])))
+        elif st[0] == "fc":
+            els.append(ProbeFC(log, nm, results=st[1]))
         else:
             els.append(ProbeRunMulti(log, nm, per=st[1], trailer=st[2]))
     if b.form == "single" and len(els) == 1:
@@ -219,6 +230,8 @@ class MBranch(object):
                     self.stages.append(("map", ProbeCall(log, nm)))
                 elif st[0] == "filter":
                     self.stages.append(("filter", Pred(log, nm, st[1])))
+                elif st[0] == "fc":
+                    self.stages.append(("fc", ProbeFC(log, nm, results=st[1])))
                 else:
                     self.stages.append(("multi", ProbeRunMulti(log, nm, per=st[1], trailer=st[2])))
         if b.kind != "seq":
@@ -277,6 +290,8 @@ class MBranch(object):
                 flow = _map(st, flow)
             elif kind == "filter":
                 flow = _filter(st, flow)
+            elif kind == "fc":
+                flow = _fc(st, flow)
             else:
                 flow = st.run(flow)
         return flow
@@ -285,6 +300,14 @@ class MBranch(object):
 def _map(f, flow):
     for v in flow:
         yield f(v)
+
+
+def _fc(probe, flow):
+    # a fill/compute element run as an element of a Sequence
+    for v in flow:
+        probe.fill(v)
+    for r in probe.compute():
+        yield r
 
 
 def _filter(p, flow):
@@ -369,7 +392,9 @@ def consume(gen, log):
 def run(tape):
     res = RunResult()
     sc = gen_scenario(tape)
-    res.say("mode=%s flow=%d values bufsize=%s copy_buf=%s" % (sc.mode, sc.n, sc.bufsize, sc.copy_buf))
+    res.say("mode=%s flow=%d values bufsize=%s copy_buf=%s%s" % (
+        sc.mode, sc.n, sc.bufsize, sc.copy_buf,
+        "" if sc.second_run is None else "; then the same Split is run again on %d values" % sc.second_run))
     for b in sc.branches:
         res.say("  " + describe_branch(b))
     if sc.mode == "run":
@@ -393,6 +418,11 @@ def run_mode(sc, res):
     mbranches = [MBranch(b, mlog) for b in sc.branches]
     mlog.ev("built")
     consume(ref_split_run(mbranches, msrc, sc.bufsize), mlog)
+    if sc.second_run is not None:
+        # the same Split object is run again on a new flow
+        mlog.ev("second-run")
+        consume(ref_split_run(mbranches, SimSource(mlog, "src2", sc.second_run,
+                                                   lambda i: Tok(100 + i)), sc.bufsize), mlog)
     # real
     src = SimSource(log, "src", sc.n, lambda i: Tok(i))
     try:
@@ -400,6 +430,10 @@ def run_mode(sc, res):
                                 bufsize=sc.bufsize, copy_buf=sc.copy_buf)
         log.ev("built")
         consume(split.run(src), log)
+        if sc.second_run is not None:
+            log.ev("second-run")
+            res.probe("same-split-run-twice")
+            consume(split.run(SimSource(log, "src2", sc.second_run, lambda i: Tok(100 + i))), log)
     except Exception as e:  # noqa: BLE001
         from ..kernel import exception_origin, exception_site
         if exception_origin(e) != "lena":
@@ -438,6 +472,8 @@ def _probes(sc, res, mlog):
             res.probe("empty-flow-all-kinds")
     if not sc.branches:
         res.probe("empty-split")
+    if any(b.kind == "seq" and any(st[0] == "fc" for st in b.stages) for b in sc.branches):
+        res.probe("accumulator-inside-explicit-sequence")
     B = sc.bufsize
     if B is not None and sc.n > B:
         res.probe("multi-block")
